@@ -464,13 +464,19 @@ static void gen_long_token(int validonly)
 		puts_(firsts[vh_below(sizeof firsts / sizeof *firsts)]);
 		for (int i = 0; i < L; i++)
 		{
-			uint32_t r = vh_below(24);
+			uint32_t r = vh_below(28);
 			if (r == 0)
 				puts_("\\u0000");
 			else if (r == 1)
 				puts_("\\t");
 			else if (r == 2)
 				puts_("\xe2\x82\xac");
+			else if (r == 3)
+				puts_("\\ud800\\n"); /* a lone high surrogate followed by another escape: 3 replacement bytes + 1 */
+			else if (r == 4)
+				puts_("\\udbff\\udfff");
+			else if (r == 5)
+				puts_("\\ud83dx");
 			else
 				putc_("abcdefghijklmnopqrstuvwxyzABCDEFGHIJ 0123456789"[vh_below(47)]);
 		}
@@ -493,6 +499,18 @@ static void gen_long_token(int validonly)
 		}
 		if (vh_below(3) == 0)
 			puts_("e-12");
+		else if (!validonly && vh_below(3) == 0)
+		{
+			/* an exponent part of several KiB, then a second exponent marker in the digit run (not a number any more:
+			 * where it stops being one must not depend on the chunking either) */
+			static const int el[] = {100, 4090, 4095, 4096, 4097, 5000, 8200};
+			int n = el[vh_below(7)];
+			putc_('e');
+			for (int i = 0; i < n; i++)
+				putc_('0');
+			if (vh_below(2))
+				puts_("e5");
+		}
 		break;
 	case 3: /* long comment before a value (ignored in strict mode: an error there, which must not depend on the split either) */
 		puts_(vh_below(2) ? "/*" : "//");
@@ -546,7 +564,7 @@ static int split_drive(int start, int nexec)
 			if (x % 4 == 3)
 			{
 				gen_long_token(0);
-				splits_of_text(fl, 32, 400);
+				splits_of_text(fl, 32, TL > 1500 ? 30 : 400);
 				continue;
 			}
 			gen_doc(2 + (int)vh_below(4), 4 + (int)vh_below(20));
@@ -793,11 +811,16 @@ static int fault_drive(int start, int nexec)
 		ev_begin("new");
 		ev_end();
 		int fl = x % 5;
-		gen_doc(2 + (int)vh_below(4), 4 + (int)vh_below(24));
-		if (vh_below(4) == 0)
-			mutate();
-		if (vh_below(2) && TL < MAXTEXT - 1)
-			T[TL++] = 0;
+		if (x % 3 == 2)
+			gen_long_token(0); /* the allocation that fails is then a growth of the scratch buffer in mid-token */
+		else
+		{
+			gen_doc(2 + (int)vh_below(4), 4 + (int)vh_below(24));
+			if (vh_below(4) == 0)
+				mutate();
+			if (vh_below(2) && TL < MAXTEXT - 1)
+				T[TL++] = 0;
+		}
 		int cuts[4], ncuts = 0;
 		if (vh_below(2) && TL > 2)
 		{
@@ -1287,6 +1310,7 @@ static int valid_pairs(int n, int exhaustive_hi)
 }
 
 /* -------------------------------------------------------------------------------- C15 depth */
+static int leaf_off, leaf_len; /* where nest_doc put the innermost value */
 static void nest_doc(int levels, int mix, int leaf)
 {
 	/* `levels` containers around one innermost value (or an empty container when leaf = 0) */
@@ -1312,16 +1336,19 @@ static void nest_doc(int levels, int mix, int leaf)
 			puts_("\"a\":");
 		}
 	}
+	leaf_off = TL;
 	switch (leaf)
 	{
 	case 0: /* innermost container empty: remove the pending member of an object */
 		if (levels && kinds[levels - 1] == '{')
 			TL -= 4;
+		leaf_off = -1;
 		break;
 	case 1: puts_("1"); break;
 	case 2: puts_("\"s\""); break;
 	default: puts_("null"); break;
 	}
+	leaf_len = leaf_off >= 0 ? TL - leaf_off : 0;
 	for (int i = levels - 1; i >= 0; i--)
 	{
 		if (vh_below(3) == 0 && i + 1 < levels)
@@ -1381,6 +1408,41 @@ static int depth_drive(int start, int nexec)
 			nest_doc(levels, (int)vh_below(3), (int)vh_below(4));
 			int cuts[4], nc = vh_below(2) ? rand_cuts(TL + 1, cuts, 3) : 0;
 			record_parse("depth", (int)vh_below(2), D, cuts, nc);
+			if (delta >= 0 && leaf_off >= 0)
+			{
+				/* the value that is too deep spelled in one of json-c's other ways (NaN, Infinity, a single-quoted
+				 * string, a literal in capitals): too deep is too deep, at the same place, however the value is spelled */
+				static const char *alts[] = {"NaN", "Infinity", "-Infinity", "'s'", "TRUE", "Null", "False", "nan", "-1e5", "\"\\u0041\""};
+				static unsigned char R[MAXTEXT];
+				int RL = TL;
+				memcpy(R, T, (size_t)TL);
+				const char *alt = alts[vh_below(sizeof alts / sizeof *alts)];
+				int al = (int)strlen(alt);
+				json_tokener *t1 = json_tokener_new_ex(D), *t2 = json_tokener_new_ex(D);
+				R[RL] = 0;
+				outcome r1 = run_chunked(t1, R, RL + 1, NULL, 0);
+				/* T := R with the leaf replaced */
+				memcpy(T, R, (size_t)leaf_off);
+				memcpy(T + leaf_off, alt, (size_t)al);
+				memcpy(T + leaf_off + al, R + leaf_off + leaf_len, (size_t)(RL - leaf_off - leaf_len));
+				TL = RL - leaf_len + al;
+				T[TL] = 0;
+				outcome r2 = run_chunked(t2, T, TL + 1, NULL, 0);
+				ev_begin("depthalt");
+				ev_int("D", D);
+				ev_bytes("text", R, (size_t)RL);
+				ev_bytes("alt", T, (size_t)TL);
+				ev_int("leaf", leaf_off);
+				ev_outcome("rfc", &r1);
+				ev_outcome("got", &r2);
+				ev_end();
+				drop(&r1);
+				drop(&r2);
+				json_tokener_free(t1);
+				json_tokener_free(t2);
+				memcpy(T, R, (size_t)RL);
+				TL = RL;
+			}
 			/* the same limit configured through the other entry point that takes one: the file / descriptor reader */
 			if (delta >= -1 && delta <= 1)
 				depth_via_fd(vh_below(6) ? D : (int[]){0, -2, -33, INT_MIN + 1}[vh_below(4)]);
@@ -1464,11 +1526,11 @@ static void three_runs(const char *kind, int pos)
 	unsigned char X[MAXTEXT];
 	int XL = TL;
 	memcpy(X, T, (size_t)TL);
-	outcome r[3];
-	for (int f = 0; f < 3; f++)
+	outcome r[4];
+	for (int f = 0; f < 4; f++)
 	{
 		json_tokener *t = json_tokener_new_ex(32);
-		json_tokener_set_flags(t, flags_of(f == 0 ? 1 : f == 1 ? 2 : 0));
+		json_tokener_set_flags(t, flags_of(f == 0 ? 1 : f == 1 ? 2 : f == 2 ? 0 : 4));
 		X[XL] = 0;
 		r[f] = run_chunked(t, X, XL + 1, NULL, 0);
 		json_tokener_free(t);
@@ -1482,8 +1544,9 @@ static void three_runs(const char *kind, int pos)
 	ev_outcome("strict", &r[0]);
 	ev_outcome("trail", &r[1]);
 	ev_outcome("deflt", &r[2]);
+	ev_outcome("strict_utf8", &r[3]); /* strict together with UTF-8 validation (the generated texts are valid UTF-8) */
 	ev_end();
-	for (int f = 0; f < 3; f++)
+	for (int f = 0; f < 4; f++)
 		drop(&r[f]);
 }
 static int inject_drive(int start, int nexec)
